@@ -132,6 +132,28 @@ func c12RegMisc() {
 		ref: func(c red.Cmdable, ctx context.Context, s c12Step) (any, error) {
 			return c.GeoPos(ctx, s.K[0], c12PlaceNames(s)...).Result()
 		}})
+	// GeoHash: miniredis 2.23.1 has no GEOHASH. The entry runs inside scripted steps only:
+	// both servers answer the command with the same legal GEOHASH reply (an array with
+	// one bulk string per member, nil for a member that is not in the index), so the wire
+	// (GEOHASH key member...) and the handed-through result are judged like any other.
+	c12Reg("GeoHash", &c12Entry{typ: "geo", mtype: "zset", scriptedOnly: true,
+		gen: func(g *c12G) c12Step {
+			n := int(g.small(1, 3))
+			s := c12Step{K: []string{g.key("geo")}}
+			for i := 0; i < n; i++ {
+				s.I = append(s.I, place(g))
+			}
+			return s
+		},
+		wrap: func(e *c12Env, ctx context.Context, s c12Step) (any, error) {
+			if s.X {
+				return e.r.GeoHashCtx(ctx, s.K[0], c12PlaceNames(s)...)
+			}
+			return e.r.GeoHash(s.K[0], c12PlaceNames(s)...)
+		},
+		ref: func(c red.Cmdable, ctx context.Context, s c12Step) (any, error) {
+			return c.GeoHash(ctx, s.K[0], c12PlaceNames(s)...).Result()
+		}})
 	query := func(s c12Step) *red.GeoRadiusQuery {
 		q := &red.GeoRadiusQuery{Radius: s.F[0], Unit: s.S[0], Sort: s.S[1], Count: int(s.I[1])}
 		q.WithCoord = s.I[2]&1 != 0
@@ -332,9 +354,21 @@ var c12Scripted = func() map[string][]string {
 		m[n] = strs
 	}
 	for _, n := range []string{"Exists", "Del", "HDel", "SAdd", "SRem", "LLen", "HLen", "ZCard", "SCard", "PFAdd", "PFCount", "ZAdd", "ZAdds",
-		"Incr", "DecrBy", "TTL", "GetBit", "SetBit", "Persist", "HExists", "SIsMember", "LPush", "LRem", "ZRem", "ZCount", "ZRank", "HIncrBy", "BitCount", "BitPos", "SUnionStore", "ZUnionStore"} {
+		"Incr", "DecrBy", "TTL", "GetBit", "SetBit", "Persist", "HExists", "SIsMember", "LPush", "LRem", "ZRem", "ZCount", "ZRank", "HIncrBy", "BitCount", "BitPos", "SUnionStore", "ZUnionStore",
+		// round 8
+		"SDiffStore", "SInterStore", "Expire", "ExpireAt", "SetNX", "HSetNX", "IncrBy", "Decr", "RPush", "ZRevRank",
+		"ZRemRangeByScore", "ZRemRangeByRank", "GeoAdd"} {
 		m[n] = ints
 	}
+	// round 8: blocking pops. "*-1" is what BLPOP answers when its timeout expires on an
+	// empty list - the quick tier gets the timeout reply without sleeping for it; the other
+	// shapes are [key, element] with an empty and a very long element.
+	for _, n := range []string{"BLPop", "BLPopEx", "BLPopWithTimeout"} {
+		m[n] = []string{c12NilArr, c12Arr(b("l:1"), b("v")), c12Arr(b("l:1"), b("")), c12NilArr, c12Arr(b("l:2"), b(long))}
+	}
+	// round 8: GEOHASH replies (miniredis lacks the command, see the GeoHash entry)
+	m["GeoHash"] = []string{c12Arr(b("sqc8b49rny0")), c12Arr(b("sqc8b49rny0"), b("sqdtr74hyu0")), c12Arr(c12NilBulk, b("sqdtr74hyu0")),
+		c12Arr(), c12Arr(b("sqc8b49rny0"), c12NilBulk, b("")), c12Arr(c12NilBulk)}
 	for _, n := range []string{"Get", "HGet", "LPop", "RPop", "LIndex", "GetSet"} {
 		m[n] = bulk
 	}
@@ -358,5 +392,20 @@ var c12ScriptedNames = func() []string {
 		ns = append(ns, n)
 	}
 	sort.Strings(ns)
+	return ns
+}()
+
+// c12ScriptedWeighted: what the generator samples from. The commands whose interesting
+// replies exist as scripted replies only (GEOHASH at all; the nil reply of a blocking pop
+// that timed out; a scan page that is empty although the cursor is not 0) get three times
+// the weight of the others.
+var c12ScriptedWeighted = func() []string {
+	var ns []string
+	for _, n := range c12ScriptedNames {
+		ns = append(ns, n)
+		if n == "GeoHash" || strings.HasPrefix(n, "BLPop") || strings.HasSuffix(n, "Scan") {
+			ns = append(ns, n, n)
+		}
+	}
 	return ns
 }()
